@@ -135,7 +135,7 @@ Definition atom_of_fl (x : fl) : atom :=
 Definition atom_of_num (x : num) : atom :=
   match x with
   | NF f => atom_of_fl f
-  | NQ n _ => if n =? 0 then AZero else AFin
+  | NQ _ _ => AFin          (* a non-dyadic rational is not zero *)
   end.
 
 (* well-formedness of a number: an NQ is a non-dyadic rational, so it is
